@@ -533,6 +533,10 @@ class ExprMixin(CallMixin):
         items = self.concrete_items(it)
         if items is None and isinstance(it, PyDict):
             items = [key_to_val(k) for k in it.items]
+        if items is None and isinstance(it, Const) and isinstance(it.v, str):
+            items = [Const(ch) for ch in it.v]
+        if items is None and isinstance(it, Str) and it.is_const():
+            items = [Const(ch) for ch in it.const()]
         if items is not None:
             out: List[V] = []
             for item in items:
